@@ -11,6 +11,7 @@ STEP =
   {"do":"fuzz","name":N,"seed":s,"desired":d,"gens":g,"pop":p,"settings":{..},"record":bool}
   {"do":"io","name":N,"gens":g,"seed":s,"record":bool}                  fuzz(mode=IO, population_size=1)
   {"do":"parse","name":N,"words":[..],"seed":s,"record":bool,"prefix":bool}
+  {"do":"reparse","name":N,"n":k,"record":bool}                         parse the first k solutions of N back
   {"do":"mask"}                                                          restore nodes.MAX_REPETITIONS
   {"do":"probe","tag":t}                                                 what a brand-new instance sees
   {"do":"trace_on"} / {"do":"trace_off"}                                 record tuner updates / cap writes
@@ -19,8 +20,10 @@ Only steps with "record": true contribute to "out" (the observable that is compa
 from __future__ import annotations
 
 import hashlib
+import itertools
 import json
 import os
+import signal
 import sys
 
 
@@ -159,10 +162,18 @@ def main() -> None:
         acc = len(list(p.parse("a" * (default_cap + 1)))) > 0
         return {"cap": p.grammar.get_max_repetition(), "accepts_default_plus_1": acc}
 
+    class StepTimeout(BaseException):
+        pass
+
+    def on_alarm(signum, frame):
+        raise StepTimeout("step exceeded its time limit")
+    signal.signal(signal.SIGALRM, on_alarm)
+
     for st in cfg["steps"]:
         do = st["do"]
         rec = bool(st.get("record"))
         res = None
+        signal.alarm(int(cfg.get("step_limit_s", 150)))
         try:
             if do == "construct":
                 objs[st["name"]] = Fandango(st["text"], use_cache=False, use_stdlib=bool(st.get("stdlib", False)),
@@ -175,6 +186,7 @@ def main() -> None:
                               random_seed=st.get("seed"), population_size=st.get("pop", 10),
                               **(st.get("settings") or {}))
                 res = {"solutions": [tree_out(t) for t in sols]}
+                objs["__sols__" + st["name"]] = sols
                 info["caps"].append({"after": st["name"], "cap": f.grammar.get_max_repetition(),
                                      "module": nodes.MAX_REPETITIONS})
             elif do == "io":
@@ -192,11 +204,26 @@ def main() -> None:
                 for w in st["words"]:
                     word = bytes.fromhex(w[4:]) if w.startswith("hex:") else w
                     try:
-                        trees = list(f.parse(word, prefix=bool(st.get("prefix"))))
-                        r[w] = sorted(json.dumps(canon_tree(t)) for t in trees)[:8] + [len(trees)]
+                        # prefix mode enumerates incomplete trees without end: look at the first 12 only
+                        trees = list(itertools.islice(f.parse(word, prefix=bool(st.get("prefix"))), 12))
+                        r[w] = [json.dumps(canon_tree(t)) for t in trees]
                     except Exception as e:  # noqa
                         r[w] = exc_out(e)
                 res = {"parses": r}
+            elif do == "reparse":
+                f = objs[st["name"]]
+                r = []
+                for t in objs.get("__sols__" + st["name"], [])[: int(st.get("n", 4))]:
+                    if t.size() > 400:
+                        r.append("skipped:large")
+                        continue
+                    try:
+                        word = t.to_bytes() if t.should_be_serialized_to_bytes() else t.to_string()
+                        trees = list(itertools.islice(f.parse(word), 4))
+                        r.append([json.dumps(canon_tree(x)) for x in trees])
+                    except Exception as e:  # noqa
+                        r.append(exc_out(e))
+                res = {"reparsed": r}
             elif do == "mask":
                 nodes.MAX_REPETITIONS = default_cap
                 res = {"masked": True}
@@ -208,8 +235,13 @@ def main() -> None:
                 tracing["on"] = False
             else:
                 raise ValueError(do)
+        except StepTimeout:
+            info.setdefault("step_timeouts", []).append({"do": do, "name": st.get("name")})
+            res = {"error": "StepTimeout"}
         except Exception as e:  # noqa  (BaseException such as KeyboardInterrupt must still kill the child)
             res = exc_out(e)
+        finally:
+            signal.alarm(0)
         if rec:
             out.append({"step": do, "name": st.get("name"), "res": res})
     info["module_cap_end"] = nodes.MAX_REPETITIONS
